@@ -23,6 +23,27 @@ CLAIMED = {
     'C16': dict(technique='bounded symbolic execution of the MIR of main: operand kinds chosen by symbolic selectors (8x8 matrix per operator in one run), leaves symbolic, decided by z3; lock-step reference acceptance table; native replay',
                 text='Exhaustive over kinds: 15 binary operators x 8 x 8 operand kinds in plain form, 5 in op-assign form on variable and element targets, and 27 typed contexts x 8 kinds; accepted exactly per the documented table, otherwise exit 103 with a diagnostic naming operator and both type names in order; int and bool leaves are solver variables.',
                 design='§4 C16'),
+    'C04': dict(technique='bounded symbolic execution of the MIR of main on generated scope-operation programs (symbolic values and conditions), decided by z3; lock-step reference; consistently renamed twins; native replay',
+                text='Curated and generated programs over declare / assign / read / block / if / loop / define / call / return-a-closure operations on three names: every value and if-condition is a solver variable; on each path z3 decides stdout and the error class against lexical-scoping reference semantics; each program is also run consistently renamed.',
+                design='§4 C04'),
+    'C05': dict(technique='bounded symbolic execution of the MIR of main: enumerated alias set-ups, mutation per step chosen by a symbolic selector, values symbolic, decided by z3; lock-step reference heap with cell identities; native replay',
+                text='12 list and 5 object alias / fresh-copy set-ups (alias, argument, return, capture, stored, +, slice, spread, collect, +=, range) followed by 1-3 mutations chosen by symbolic selectors: visibility of every write through every name and === between them equal the reference heap on every path.',
+                design='§4 C05'),
+    'C12': dict(technique='bounded symbolic execution of the MIR of main: operation and key of every history step chosen by symbolic selectors, values symbolic, hash iteration order demonic, decided by z3; lock-step reference; native replay',
+                text='Histories of insert / overwrite / op-assign / read through .k and ["k"] over a key alphabet incl. non-identifier, empty and case-variant keys, all insertion orders, literal evaluation order / later-wins / shorthand / spread / computed names: print, for-order and == equal the reference map semantics on every path.',
+                design='§4 C12'),
+    'C13': dict(technique='bounded symbolic execution of the MIR of main: source value per pattern chosen by a symbolic selector, elements symbolic, hash iteration order demonic, decided by z3; lock-step reference; inverse laws in Seed; native replay',
+                text='18 list and 19 object patterns (names, _, nested, renames, collect) against sources of every length 0..4/5 and ill-shaped sources, in declaration / assignment / for-target / parameter position; spread and rest-parameter laws; misplaced spread/collect: bindings, errors and inverse laws equal the reference on every path.',
+                design='§4 C13'),
+    'C14': dict(technique='bounded symbolic execution of the MIR of main: route of a function value chosen by symbolic selectors, decided by z3; lock-step reference with explicit provenance; native replay',
+                text='25 single and 4x6x6 two-move routes of a function value read from objects and moved through variables, arguments, lists, returns, destructuring; arities 0..4 with/without rest x 0..5 arguments; argument evaluation order; fresh parameters: `this`, results and errors equal the reference on every path.',
+                design='§4 C14'),
+    'C17': dict(technique='bounded symbolic execution of the MIR of main: error kind, syntactic position and call depth chosen by symbolic selectors, decided by z3; diagnostic grammar and stack trace against the lock-step reference call stack; native replay',
+                text='67 failing constructs x top level / in function / in method, and 7 representative kinds x 29 syntactic positions x call depths: stdout = output so far, exit 103, first stderr line `<path>:<line>:<col>: [in f: ]<message>` without internal identifiers, Stacktrace lines = the reference call stack, innermost first, ending at <root>.',
+                design='§4 C17'),
+    'C20': dict(technique='bounded symbolic execution of the MIR of main on generated declare/redeclare/assign/read/destructure programs, decided by z3; lock-step reference incl. error position and cited earlier position; native replay',
+                text='Same program space as C04 plus 4x5 redeclaration kind pairs and 12 non-bindable target kinds x 10 binding positions (exhaustive): undefined names are reported at the name, redeclarations cite the earlier position, `_` never binds, non-bindable targets are reported errors.',
+                design='§4 C04/C20'),
 }
 NA_REASON = 'check not built yet in this round (DESIGN.md §7 gates); no claim is made'
 checks = []
